@@ -106,7 +106,17 @@ InD2 == SIn("d", "signal-D", 5)
 Foreign == {P("foreign", <<InD2, InX, InE, Mem("m", TM), Wr("m", Proj(D, TName(TM)), Bin(">", E, Num(0))), Rd("o", "m"), SLet("Signal", "p", v)>>, <<-3, 0, 1, 5>>) :
               v \in {Bin("*", ReadE("m"), X), Bin("-", X, ReadE("m")), CondE(Bin(">", ReadE("m"), X), Num(1))}}
 Cells == Cell1 \cup Shared \cup Readers \cup Two \cup CellSameType \cup SameEnable \cup EarlyReaders \cup Foreign
-Latches == LatchTwo \cup LatchOne \cup LatchMore \cup LatchSameType
+\* set and reset watch two DIFFERENT inputs of ONE signal type (two sources of the same type are legal; each condition must read
+\* its own source), directly and through a derived alias
+InS2 == SIn("s", "signal-S", 0)
+InR2 == SIn("r", "signal-S", 0)
+LatchSameTwo == {P("latch2s", <<InS2, InR2, Mem("l", TL), La(mode, v, sr[1], sr[2]), Rd("o", "l")>>, sr[3]) :
+                   mode \in Modes, v \in {Num(1), Num(5)},
+                   sr \in {<<Bin(">", S, Num(0)), Bin(">", R, Num(0)), <<-3, 0, 1, 5>> >>, <<Bin("<", S, Num(2)), Bin(">=", R, Num(5)), <<0, 1, 2, 5, 6>> >>,
+                           <<Bin("==", S, Num(1)), Bin("!=", R, Num(0)), <<-3, 0, 1, 5>> >>}}
+   \cup {P("latch2s", <<SIn("x", "signal-X", 0), SLet("Signal", "y", Bin("+", X, Num(5))), Mem("l", TL), La(mode, Num(1), Bin("<", X, Num(2)), Bin(">=", Ref("y"), Num(9))), Rd("o", "l")>>,
+             <<-3, 0, 1, 2, 3, 4, 5, 6, 7, MaxI>>) : mode \in Modes}
+Latches == LatchTwo \cup LatchOne \cup LatchMore \cup LatchSameType \cup LatchSameTwo
 ASSUME PrintT(<<"NPROGS", Cardinality(Cells), Cardinality(Latches)>>)
 ASSUME JsonSerialize(IOEnv.GEN_OUT, SetToSeq(Cells \cup Latches))
 =============================================================================
